@@ -100,6 +100,23 @@ func TestVerifReplay(t *testing.T) {
 	}
 	ns = append(ns, 1<<32-1, 1<<32-2, 1<<31+1, 3<<30, 7776, 18328, 10007)
 	r := &vRng{s: uint64(req.Seed)*2654435761 + 1}
+	// long runs of rejected values: every one of them must be redrawn, however many there are
+	for _, n := range []uint32{3, 5, 6, 7, 10, 1<<31 + 1, 3 << 30} {
+		thr := c01Thr(uint64(n))
+		if thr >= 1<<32 {
+			continue
+		}
+		for _, run := range []int{1, 2, 31, 32, 33, 63, 64, 65, 66, 127, 128, 129, 300} {
+			words := make([]uint32, 0, run+1)
+			for i := 0; i < run; i++ {
+				words = append(words, uint32(thr)+uint32(i)%uint32(1<<32-thr))
+			}
+			words = append(words, 5)
+			if try("", n, words) {
+				return
+			}
+		}
+	}
 	for _, n := range ns {
 		thr := c01Thr(uint64(n))
 		cands := []uint32{0, 1, uint32(n - 1), n, uint32(thr - 1), 1<<32 - 1, uint32(r.next())}
